@@ -11,8 +11,17 @@ use core::cmp::Ordering;
 use crate::prelude::*;
 
 // ------------------------------------------------------------------ Sign
-#[derive(Clone, Copy, PartialEq, Eq, Debug)]
+#[derive(Clone, Copy, Debug)]
 pub enum Sign { Minus, NoSign, Plus }
+impl PartialEqSpecImpl for Sign {
+    open spec fn obeys_eq_spec() -> bool { true }
+    open spec fn eq_spec(&self, other: &Sign) -> bool { *self == *other }
+}
+impl PartialEq for Sign {
+    #[verifier::external_body]
+    fn eq(&self, other: &Sign) -> bool { unimplemented!() }
+}
+impl Eq for Sign {}
 
 pub open spec fn sgn(s: Sign) -> int { match s { Sign::Minus => -1, Sign::NoSign => 0, Sign::Plus => 1 } }
 pub open spec fn sign_of(i: int) -> Sign { if i < 0 { Sign::Minus } else if i == 0 { Sign::NoSign } else { Sign::Plus } }
@@ -232,7 +241,8 @@ pub trait Signed: Sized {
     spec fn abs_post(&self, ret: &Self) -> bool;
     fn abs(&self) -> (ret: Self) ensures self.abs_post(&ret);
     spec fn abs_sub_post(&self, other: &Self, ret: &Self) -> bool;
-    fn abs_sub(&self, other: &Self) -> (ret: Self) ensures self.abs_sub_post(other, &ret);
+    spec fn abs_sub_req(&self, other: &Self) -> bool;
+    fn abs_sub(&self, other: &Self) -> (ret: Self) requires self.abs_sub_req(other) ensures self.abs_sub_post(other, &ret);
     spec fn signum_post(&self, ret: &Self) -> bool;
     fn signum(&self) -> (ret: Self) ensures self.signum_post(&ret);
     fn is_positive(&self) -> (ret: bool) ensures ret == (self.signed_val() > 0);
@@ -242,6 +252,7 @@ impl Signed for BigInt {
     open spec fn signed_val(&self) -> int { self@ }
     open spec fn abs_post(&self, ret: &Self) -> bool { ret@ == iabs(self@) }
     #[verifier::external_body] fn abs(&self) -> (ret: Self) { unimplemented!() }
+    open spec fn abs_sub_req(&self, other: &Self) -> bool { true }
     open spec fn abs_sub_post(&self, other: &Self, ret: &Self) -> bool { ret@ == (if self@ <= other@ { 0 } else { self@ - other@ }) }
     #[verifier::external_body] fn abs_sub(&self, other: &Self) -> (ret: Self) { unimplemented!() }
     open spec fn signum_post(&self, ret: &Self) -> bool { ret@ == isgn(self@) }
